@@ -68,6 +68,26 @@ func (reconfStream) Generate(rng *rand.Rand, tier string, emit func(Case)) {
 		n = 150
 		lens = append(lens, 120, 200)
 	}
+	// fixed histories: descriptor shortage during a Configure that replaces a live watcher (the old
+	// watcher's descriptors are released first, so the new watcher can be created while the scan
+	// cannot open the directories), with and without a live watcher before, automatic and manual
+	tr, fa := true, false
+	for _, fx := range []struct {
+		h     [][]reconfOpt
+		short int
+	}{
+		{[][]reconfOpt{{{Auto: &tr}}}, 0},
+		{[][]reconfOpt{{{Dirs: []string{"P0", "P2"}}}}, 0},
+		{[][]reconfOpt{{{Auto: &fa}}, {{Auto: &tr}}}, 1},
+		{[][]reconfOpt{{{Auto: &fa}}}, 0},
+		{[][]reconfOpt{{{Dirs: []string{"P1"}}}, {{Auto: &fa}}, {{Dirs: []string{"P2", "P1"}}}}, 0},
+		{[][]reconfOpt{{{Dirs: []string{"P1"}}}, {{Dirs: []string{"P2", "P1"}}}, {{Auto: &tr}}}, 1},
+	} {
+		hj, _ := json.Marshal(fx.h)
+		var hm []any
+		_ = json.Unmarshal(hj, &hm)
+		emit(Case{"op": "reconf", "hist": hm, "shortage": fx.short, "root": reconfRoot})
+	}
 	for i := 0; i < n; i++ {
 		h := genHist(rng, lens[rng.Intn(len(lens))])
 		hj, _ := json.Marshal(h)
@@ -112,6 +132,31 @@ func (a procRes) minus(b procRes) procRes {
 }
 
 func settle() { time.Sleep(40 * time.Millisecond) }
+
+// stableResources waits until two consecutive readings 25 ms apart are equal (goroutines and
+// descriptors of a closed watcher go away asynchronously), at most 3 s.
+func stableResources() procRes {
+	prev := resources()
+	for i := 0; i < 120; i++ {
+		time.Sleep(25 * time.Millisecond)
+		cur := resources()
+		if cur == prev {
+			return cur
+		}
+		prev = cur
+	}
+	return prev
+}
+
+// resourcesUntil polls until pred holds, at most 3 s.
+func resourcesUntil(pred func(procRes) bool) procRes {
+	r := stableResources()
+	for i := 0; i < 100 && !pred(r); i++ {
+		time.Sleep(30 * time.Millisecond)
+		r = resources()
+	}
+	return r
+}
 
 func setupReconfTree() {
 	_ = os.RemoveAll(reconfRoot)
@@ -201,8 +246,7 @@ func (reconfStream) Execute(c Case) {
 		case float64:
 			shortage = int(v)
 		}
-		settle()
-		r0 := resources()
+		r0 := stableResources()
 		cache, _ := cdi.NewCache(cdi.WithSpecDirs(filepath.Join(reconfRoot, "P0")))
 		finalDirs, finalAuto := []string{"P0"}, true
 		lastShort := false
@@ -222,16 +266,18 @@ func (reconfStream) Execute(c Case) {
 				}
 			}
 		}
-		settle()
-		r1 := resources()
-		_ = lastShort
+		r1 := stableResources()
+		if lastShort && !finalAuto {
+			// manual mode: the application refreshes when it wants to; a scan that failed during the
+			// shortage is repeated by an explicit Refresh, as for a cache created during the shortage
+			_ = cache.Refresh()
+		}
 		var abs []string
 		for _, d := range finalDirs {
 			abs = append(abs, filepath.Join(reconfRoot, d))
 		}
 		fresh, _ := cdi.NewCache(cdi.WithSpecDirs(abs...), cdi.WithAutoRefresh(finalAuto))
-		settle()
-		r2 := resources()
+		r2 := resourcesUntil(func(r procRes) bool { return r.minus(r1) == r1.minus(r0) })
 		obs["sameasfresh"] = reflect.DeepEqual(cache.ListDevices(), fresh.ListDevices()) &&
 			reflect.DeepEqual(fileErrors(cache), fileErrors(fresh)) &&
 			reflect.DeepEqual(cache.GetSpecDirectories(), fresh.GetSpecDirectories())
@@ -248,7 +294,13 @@ func (reconfStream) Execute(c Case) {
 		}
 		if existing != "" {
 			writeProbeSpec(existing, "live")
-			deadline := time.Now().Add(1500 * time.Millisecond)
+			// manual mode holds no watcher: a short wait is enough to see that nothing happens by itself;
+			// with a watcher the wait is generous (load must not turn into an alarm)
+			wait := 1200 * time.Millisecond
+			if t.Inotify > 0 {
+				wait = 8 * time.Second
+			}
+			deadline := time.Now().Add(wait)
 			for time.Now().Before(deadline) {
 				if hasDevice(cache, "probe.com/live=p") {
 					active = true
@@ -280,8 +332,7 @@ func (reconfStream) Execute(c Case) {
 		// release everything: nothing may be left behind
 		_ = cache.Configure(cdi.WithAutoRefresh(false))
 		_ = fresh.Configure(cdi.WithAutoRefresh(false))
-		settle()
-		r3 := resources()
+		r3 := resourcesUntil(func(r procRes) bool { return r == r0 })
 		l := r3.minus(r0)
 		obs["leak"] = map[string]any{"fds": l.Fds, "inotify": l.Inotify, "watches": l.Watches, "goroutines": l.Goroutines}
 	case "default":
